@@ -13,7 +13,10 @@ ASSUMPTIONS = ["constructed states: requests attached to the connection as the l
                "user callbacks only count (they do not call back into the library)"]
 DESIGN_REF = "DESIGN.md §5 C27"
 
-CUTS = [["--replace-calls", "evhttp_connection_connect_:vp_cut_connect"], ["--replace-calls", "evhttp_request_dispatch:vp_cut_dispatch"],
+# req->cb is an indirect call: cbmc considers every function of that signature, i.e. also evhttp_handle_request (the whole
+# routing/reply code, property C30).  No constructed request has it as callback except the 503 request of the accept step,
+# which is never run (evhttp_send_error is cut): its body is removed.
+CUTS = [["--remove-function-body", "evhttp_handle_request"], ["--replace-calls", "evhttp_connection_connect_:vp_cut_connect"], ["--replace-calls", "evhttp_request_dispatch:vp_cut_dispatch"],
         ["--replace-calls", "evhttp_connection_read_on_write_error:vp_cut_read_on_write_error"],
         ["--replace-calls", "evhttp_associate_new_request_with_connection:vp_cut_associate"]]
 CUTS_ACCEPT = CUTS + [["--replace-calls", "evhttp_send_error:vp_cut_send_error"], ["--replace-calls", "evhttp_get_request_connection:vp_cut_get_request_connection"]]
